@@ -15,6 +15,7 @@ LEVEL_NOTE = "thin claim: structural skeleton only"
 def run(ctx):
     from . import guardvocab
     guardvocab.G0(ctx, effects={'yield'})
+    guardvocab.G1(ctx, effects={'yield'})
     tlsrules.U1(ctx)
     tlsrules.U2(ctx)
     tlsrules.U3(ctx)
